@@ -79,7 +79,14 @@ func (c *compiler) expandExpression(expr []token, line int) ([]token, error) {
 	input := expr
 	var output []token
 
-	for !exprEqual(input, output) {
+	// every round substitutes one level of symbols, so an acyclic symbol table
+	// reaches the fixpoint after at most one round per symbol; anything beyond
+	// that (a cycle, or a symbol with an empty value) can never resolve
+	limit := len(c.values) + 2
+	for rounds := 0; !exprEqual(input, output); rounds++ {
+		if rounds > limit {
+			return nil, fmt.Errorf("expression does not resolve to a value")
+		}
 		if len(output) > 0 {
 			input = output
 		}
